@@ -196,15 +196,15 @@ theorem strictL_of_wrapper (st : AStore) (sc : Bool) (kids : List FNode)
   exact hs.2.2.2.2.2
 
 /-- **(a), rendering, multi-root** -/
-theorem doc_render_multi (cfg : Cfg) (hk : cfg.kind = .normal) (dt : Option Str) (st : AStore) (kids : List FNode)
+theorem doc_render_multi (cfg : Cfg) (dt : Option Str) (st : AStore) (kids : List FNode)
     (hs : (FNode.elem wrapper st false kids).Strict) :
     docHTML dt (some (dec0 cfg (FNode.elem wrapper st false kids).toNode))
-      = .ok (renderToks (outToksM cfg dt kids)) := by
-  have hout := innerL_decorate_eq cfg hk ((⟨0, 0⟩ : Ctx).push wrapper) wrapper kids
+      = .ok (renderToksY (styleOf cfg.kind) (outToksM cfg dt kids)) := by
+  have hout := innerL_decorate_eq cfg ((⟨0, 0⟩ : Ctx).push wrapper) wrapper kids
     (strictL_textLike _ (strictL_of_wrapper st false kids hs))
   unfold outToksM outBlocksM
-  rw [renderToks_append, render_mergeL, ftoksL_append, renderToks_append, ← List.append_assoc, ← doctypeLine_eq,
-    ← hout]
+  rw [renderToksY_append, render_mergeL, ftoksL_append, renderToksY_append, ← List.append_assoc,
+    ← doctypeLine_eq, ← hout]
   simp [dec0, FNode.toNode, decorate, docHTML]
 
 theorem strict_outBlocksM (cfg : Cfg) (hi : IndentWS cfg) (dt : Option Str) (kids : List FNode)
@@ -234,8 +234,9 @@ theorem doc_listOK_multi (cfg : Cfg) (hi : IndentWS cfg) (dt : Option Str) (kids
       exact .cons ⟨hdt.1, hdt.2⟩ trivial hblocks
 
 theorem doc_lex_multi (cfg : Cfg) (hi : IndentWS cfg) (dt : Option Str) (kids : List FNode) (hs : StrictL kids)
-    (hdt : DtOK dt) : lexStrict (renderToks (outToksM cfg dt kids)) = some (outToksM cfg dt kids) :=
-  lexStrict_renderToks _ (doc_listOK_multi cfg hi dt kids hs hdt)
+    (hdt : DtOK dt) :
+    lexStrict (renderToksY (styleOf cfg.kind) (outToksM cfg dt kids)) = some (outToksM cfg dt kids) :=
+  lexStrict_renderToksY _ (styleOf_ok cfg.kind) _ (doc_listOK_multi cfg hi dt kids hs hdt)
 
 /-! ### the second pass -/
 
